@@ -18,6 +18,7 @@ import (
 
 	"github.com/protobom/protobom/pkg/sbom"
 	"google.golang.org/protobuf/proto"
+	"google.golang.org/protobuf/reflect/protoreflect"
 	"pgregory.net/rapid"
 	"verif/harness/hx"
 )
@@ -209,6 +210,7 @@ func c19Property(env *storeEnv) func(t *rapid.T) {
 		}
 		model := map[string][]byte{} // id -> stored document bytes
 		damaged := map[string]string{}
+		tampered := map[string]bool{}    // ids whose entry file was removed behind the store's back
 		entryPath := map[string]string{} // id -> file its first store created (found by diffing the tree, not by knowing the naming scheme)
 		var hist []string
 		logf := func(f string, a ...any) { hist = append(hist, fmt.Sprintf(f, a...)) }
@@ -366,7 +368,7 @@ func c19Property(env *storeEnv) func(t *rapid.T) {
 						// the statement promises what holds *after a successful store*: a store that refuses an unusual
 						// identifier with an error return breaks no clause. Plain identifiers in a healthy directory
 						// must be storable, otherwise nothing here would be exercised.
-						if len(id) == 1 && id[0] >= 'a' && id[0] <= 'z' && damaged[id] == "" {
+						if len(id) == 1 && id[0] >= 'a' && id[0] <= 'z' && damaged[id] == "" && !tampered[id] {
 							t.Fatalf("store(%q) failed: %s%s", id, serr, history())
 						}
 						hx.Class("store_refused_with_error")
@@ -475,8 +477,9 @@ func c19Property(env *storeEnv) func(t *rapid.T) {
 				if idA == idB {
 					t.Skip("same id")
 				}
-				rawA, errA := proto.Marshal(genStoreDoc(t, idA))
-				rawB, errB := proto.Marshal(genStoreDoc(t, idB))
+				// (documents of the current schema: what a store makes of fields it does not know is the store action's subject)
+				rawA, errA := proto.Marshal(stripUnknown(genStoreDoc(t, idA)))
+				rawB, errB := proto.Marshal(stripUnknown(genStoreDoc(t, idB)))
 				if errA != nil || errB != nil {
 					t.Skip("unmarshalable")
 				}
@@ -493,8 +496,27 @@ func c19Property(env *storeEnv) func(t *rapid.T) {
 				if damaged[idA] == "" && r.Res[0].Err != "" {
 					t.Fatalf("session: first store failed: %s%s", r.Res[0].Err, history())
 				}
+				if r.Res[1].Err != "" {
+					// the directory could not be removed (a store may write-protect what it creates): the premise of this
+					// action does not hold; bring the model up to date with what the stores reported and verify that
+					hx.Class("session:directory_could_not_be_removed")
+					if r.Res[0].Err == "" {
+						model[idA] = rawA
+						delete(damaged, idA)
+					}
+					if r.Res[2].Err == "" {
+						model[idB] = rawB
+						delete(damaged, idB)
+					}
+					checkConfinement("session")
+					verify("session")
+					return
+				}
 				if r.Res[2].Err != "" {
-					t.Fatalf("session: a store that finds its directory gone did not create it again: %s%s", r.Res[2].Err, history())
+					if st, err := os.Stat(base); err != nil || !st.IsDir() {
+						t.Fatalf("session: a store that finds its directory gone did not create it again: %s%s", r.Res[2].Err, history())
+					}
+					t.Fatalf("session: the directory was created again but is not usable: storing %q in it failed: %s%s", idB, r.Res[2].Err, history())
 				}
 				got := &sbom.Document{}
 				want := &sbom.Document{}
@@ -566,6 +588,7 @@ func c19Property(env *storeEnv) func(t *rapid.T) {
 					_ = os.Remove(p)
 					delete(model, id)
 					delete(damaged, id)
+					tampered[id] = true // (a store that keeps an index may regard the identifier as damaged from now on)
 				case "truncate_zero":
 					_ = os.Truncate(p, 0)
 					damaged[id] = "empty"
@@ -615,4 +638,27 @@ func TestC19(t *testing.T) {
 	defer env.cleanup()
 	hx.Info("child_runs_as_uid", map[bool]int{true: nobodyID, false: os.Geteuid()}[env.asUser])
 	rapid.Check(t, c19Property(env))
+}
+
+// stripUnknown removes unknown fields at every level of the document.
+func stripUnknown(d *sbom.Document) *sbom.Document {
+	var walk func(m protoreflect.Message)
+	walk = func(m protoreflect.Message) {
+		m.SetUnknown(nil)
+		m.Range(func(fd protoreflect.FieldDescriptor, v protoreflect.Value) bool {
+			switch {
+			case fd.IsList() && fd.Message() != nil:
+				for i := 0; i < v.List().Len(); i++ {
+					walk(v.List().Get(i).Message())
+				}
+			case fd.IsMap() && fd.MapValue().Message() != nil:
+				v.Map().Range(func(_ protoreflect.MapKey, mv protoreflect.Value) bool { walk(mv.Message()); return true })
+			case !fd.IsList() && !fd.IsMap() && fd.Message() != nil:
+				walk(v.Message())
+			}
+			return true
+		})
+	}
+	walk(d.ProtoReflect())
+	return d
 }
